@@ -113,7 +113,7 @@ Definition spec (singles : list Z) (items : list rng) (ip : Z) : bool :=
   existsb (Z.eqb ip) singles || existsb (in_rng ip) items.
 
 (* what the loader guarantees for every accepted pair *)
-Definition wf_rng (r : rng) : bool := (0 <=? fst r) && (fst r <=? snd r) && (snd r <? 2^128).
+Definition wf_rng (r : rng) : bool := (0 <=? fst r) && (fst r <=? snd r).
 (* known-finding guard: no range starts at :: and no range is the single pair 0.0.0.0-0.0.0.0 *)
 Definition no_v6zero_start (items : list rng) : bool := forallb (fun r => negb (fst r =? 0)) items.
 Definition no_v4zero_end (items : list rng) : bool := forallb (fun r => negb (snd r =? Z4)) items.
